@@ -580,7 +580,7 @@ Section StreamProofs.
       split; [rewrite S2; reflexivity|]. split; [rewrite S1, rev_append_app; reflexivity|].
       split; [exact S3|]. split; [exact S4|]. rewrite <- S2. exact S5.
     - destruct S as (S1 & S2 & S3 & S4 & (pre & S5 & S6) & S7).
-      destruct (IH sz (S i) d1 (rev_append b acc) Hsz S1 S3 ltac:(lia)) as (b' & d' & x & R1 & R2 & R3 & R4 & R5).
+      destruct (IH sz (N.succ i) d1 (rev_append b acc) Hsz S1 S3 ltac:(lia)) as (b' & d' & x & R1 & R2 & R3 & R4 & R5).
       rewrite S7, S2 in R1, R5. exists b', d', (pre ++ x).
       split; [exact R1|]. split.
       { rewrite R2, rev_append_app. rewrite <- !app_assoc. f_equal. rewrite (app_assoc (c_out (d_c d))), S6, <- app_assoc. reflexivity. }
@@ -717,7 +717,7 @@ Section StreamProofs.
           rewrite R2. cbn [skipn]. destruct w; [exact Wf|]. constructor; [discriminate|exact Wf]. }
         assert (Hr : rem d0 = w ++ chars f) by (unfold rem, d0; cbn [d_c d_p cons0 c_nbuf app]; exact Hrem).
         assert (Hpe : pend d0 = fend f) by (unfold pend, d0; cbn [d_p]; exact Hend).
-        destruct (read_all0_spec fuel sz O d0 [] Hsz Hc ltac:(rewrite Hr; exact Hp)
+        destruct (read_all0_spec fuel sz 0 d0 [] Hsz Hc ltac:(rewrite Hr; exact Hp)
                     ltac:(unfold meas; rewrite Hr; unfold d0; cbn [d_c cons0 c_out List.length]; cbn [List.length] in Hf; lia))
           as (b & d' & x & A1 & A2 & A3 & A4 & A5).
         destruct (Hrd _ _ _ _ _ _ _ _ A1) as (d'' & A1'). rewrite A1'. cbn [s_data s_end].
@@ -751,7 +751,7 @@ Section StreamProofs.
       assert (Hm : (meas d0 < fuel)%nat).
       { unfold meas, rem, d0. cbn [d_c d_p cons0 c_out c_nbuf List.length app]. rewrite R2. cbn [skipn].
         cbn [app List.length] in Hf. rewrite app_length in Hf. destruct w; cbn [chars]; rewrite ?app_length; cbn [List.length] in *; lia. }
-      destruct (read_all0_total fuel sz O d0 [] Hsz Hc Hm) as (b & e & d' & A).
+      destruct (read_all0_total fuel sz 0 d0 [] Hsz Hc Hm) as (b & e & d' & A).
       destruct (read_all_fixed _ _ _ _ _ _ _ _ A) as (d'' & A' & _). fold d0. rewrite A'. cbn. discriminate.
     - destruct R as (p1 & R1 & _). rewrite R1. destruct e; cbn; discriminate.
   Qed.
